@@ -287,6 +287,7 @@ func (fe *FE) Run() {
 	for k, v := range st.ghosts {
 		st.oldVals[k] = v
 	}
+	fe.resolveOwnFrame(st)
 	fe.smoke(st, "requires")
 	fe.runBlock(st, fn.Blocks[0], nil)
 }
@@ -641,7 +642,7 @@ func (fe *FE) execInstr(st *State, ins ssa.Instruction, b *ssa.BasicBlock, idx i
 	switch x := ins.(type) {
 	case *ssa.DebugRef:
 		if id, ok := x.Expr.(*ast.Ident); ok {
-			if _, isVar := x.Object().(*types.Var); isVar {
+			if tv, isVar := x.Object().(*types.Var); isVar && !isPkgLevel(tv) {
 				v := fe.valOf(st, x.X)
 				if !x.IsAddr && fe.isAddrVar(x.Object()) {
 					// the variable lives in a cell (captured / address taken): its name keeps denoting the cell
@@ -809,6 +810,13 @@ func (fe *FE) nilCheck(st *State, ref, site, label string) bool {
 	if strings.HasPrefix(ref, "(+ cnt") || strings.HasPrefix(ref, "(sub_") {
 		return true
 	}
+	if st.nonnil == nil {
+		st.nonnil = map[string]bool{}
+	}
+	if st.nonnil[ref] {
+		return true // already dereferenced on this path
+	}
+	st.nonnil[ref] = true
 	return fe.safety(st, goal, label+"@"+site, "nil dereference")
 }
 
@@ -856,6 +864,9 @@ func (fe *FE) execAlloc(st *State, x *ssa.Alloc) {
 }
 
 func (fe *FE) zeroStruct(st *State, t types.Type, ref string) {
+	saved := fe.initializing
+	fe.initializing = true
+	defer func() { fe.initializing = saved }()
 	su := t.Underlying().(*types.Struct)
 	for i := 0; i < su.NumFields(); i++ {
 		f := su.Field(i)
@@ -1274,6 +1285,10 @@ func (fe *FE) execConvert(st *State, x *ssa.Convert) Val {
 	to := x.Type()
 	fs := fe.S.scalarSort(from)
 	ts := fe.S.scalarSort(to)
+	if v.Kind == VSlice && ts == SStr {
+		// string([]byte): contents are not modelled
+		return scalar(fe.newConst(st, "conv", SStr), SStr, to)
+	}
 	if v.Kind != VScalar {
 		fe.errorf("convert of non-scalar")
 		return fe.zeroVal(to)
@@ -1391,7 +1406,7 @@ func (fe *FE) localType(name string) types.Type {
 		for _, b := range fe.Fn.Blocks {
 			for _, ins := range b.Instrs {
 				if d, ok := ins.(*ssa.DebugRef); ok {
-					if v, ok := d.Object().(*types.Var); ok {
+					if v, ok := d.Object().(*types.Var); ok && !isPkgLevel(v) {
 						if _, seen := fe.locals[v.Name()]; !seen {
 							fe.locals[v.Name()] = v.Type()
 						}
@@ -1418,4 +1433,104 @@ func (fe *FE) isAddrVar(obj types.Object) bool {
 		}
 	}
 	return fe.addrVars[obj]
+}
+
+func isPkgLevel(v *types.Var) bool {
+	return v.Pkg() != nil && v.Parent() == v.Pkg().Scope()
+}
+
+// resolveOwnFrame evaluates the function's own modifies clause at entry (for the frame obligations).
+func (fe *FE) resolveOwnFrame(st *State) {
+	fe.frameWhole = map[string]bool{}
+	fe.frameLocs = map[string][]string{}
+	if !fe.C.ModSet {
+		return
+	}
+	scratch := st.clone()
+	fe.scanning = true
+	cc := fe.ownCtx(scratch)
+	cc.own = false
+	for _, it := range fe.V.expandFrames(fe.C.Modifies) {
+		it = strings.TrimSpace(it)
+		before := map[string]string{}
+		for k, v := range scratch.heap {
+			before[k] = v
+		}
+		// the object a location item denotes is evaluated in the pristine entry state
+		pristine := st.clone()
+		pc := fe.ownCtx(pristine)
+		pc.own = false
+		preRef := fe.itemRef(pristine, pc, it)
+		names := fe.havocItem(scratch, cc, it, "own frame")
+		isLoc := strings.HasPrefix(it, "mapcontents(") || strings.HasPrefix(it, "elems(") || strings.HasPrefix(it, "cell(") || strings.HasPrefix(it, "gset(")
+		head := it
+		if i := strings.IndexAny(head, ".[("); i >= 0 {
+			head = head[:i]
+		}
+		_, isParam := cc.params[head]
+		if !isLoc && !isParam && strings.Contains(it, ".") {
+			for _, n := range names {
+				fe.frameWhole[n] = true
+				fe.frameWhole[stripComp(n)] = true
+			}
+			continue
+		}
+		// location item: find the object reference it denotes
+		ref := preRef
+		for _, n := range names {
+			if ref != "" {
+				fe.frameLocs[n] = append(fe.frameLocs[n], ref)
+				if b := stripComp(n); b != n {
+					fe.frameLocs[b] = append(fe.frameLocs[b], ref)
+				}
+			} else {
+				fe.frameWhole[n] = true
+				fe.frameWhole[stripComp(n)] = true
+			}
+		}
+	}
+	fe.scanning = false
+	fe.frameReady = true
+}
+
+// itemRef: the object a location-level modifies item refers to (evaluated in the entry state).
+func (fe *FE) itemRef(st *State, cc *Ctx, it string) string {
+	inner := it
+	switch {
+	case strings.HasPrefix(it, "mapcontents("), strings.HasPrefix(it, "elems("), strings.HasPrefix(it, "cell("):
+		inner = it[strings.Index(it, "(")+1 : len(it)-1]
+	case strings.HasPrefix(it, "gset("):
+		return ""
+	default:
+		if dot := strings.LastIndex(it, "."); dot > 0 {
+			inner = it[:dot]
+		}
+	}
+	e, err := ParseExpr(inner)
+	if err != nil {
+		return ""
+	}
+	if p, ok := cc.params[inner]; ok && (p.Kind == VLoc) && inner == it {
+		if len(p.Loc.Idx) > 0 {
+			return p.Loc.Idx[0]
+		}
+	}
+	cc.what = "own modifies " + it
+	saved := len(fe.errs)
+	v := cc.eval(e)
+	if len(fe.errs) > saved {
+		fe.errs = fe.errs[:saved]
+		return ""
+	}
+	switch v.Kind {
+	case VScalar:
+		return v.T
+	case VSlice:
+		return v.Arr
+	case VLoc:
+		if len(v.Loc.Idx) > 0 {
+			return v.Loc.Idx[0]
+		}
+	}
+	return ""
 }
